@@ -34,6 +34,9 @@ def make(rng, variant):
         over["contraction"] = float(rng.choice([4, 16, 64]))
     if runs.VARIANTS[variant]["shape"] == "ell":
         over["K"] = min(over["K"], 6)
+    elif rng.random() < 0.12 and variant not in ("PaVeBa",):
+        over["K"] = int(rng.integers(12, 17))  # design indices with two digits, larger active sets
+        over["contraction"] = 32.0
     case, order = runs.make_case(rng, variant, **over)
     if variant == "Auer-emp":
         case["hetero"] = (np.sqrt(case["noise_var"]) * 10 ** rng.uniform(-1, 1, size=(case["K"], case["m"]))).tolist()  # per (design, objective)
